@@ -6,7 +6,7 @@ the executable model of the documentation in vf.specops (effect on the abstract 
 """
 from vf.grammar import FAMILIES
 from vf.specops import K1_OPS, K3_OPS, K5_OPS, abs_same, build_k1, build_k3, build_k5, k1_ops, k3_ops, k5_ops, state_of
-from vf.sym import Ob, Violation, assume, check
+from vf.sym import Ob, Violation, assume, check, pick
 
 
 def run_op(o, op, tag):
@@ -36,7 +36,8 @@ def make_k1(fam, opname, attr):
 
     def h(x0: int, n0: int, s0: str, i1: int, s1: str, b1: bool, sel3: int, fk: int, i2: int, inplace: bool, if_: bool) -> str:
         P = dict(x0=x0, n0=n0, s0=s0, i1=i1, s1=s1, b1=b1, sel3=sel3, fk=fk, i2=i2, bad=0)
-        o = build_k1(NS, P)
+        # reset(): the no-default attribute x (declared FIRST) may be unset while later attributes hold non-defaults
+        o = build_k1(NS, P, xset=not (opname == "reset_all" and b1))
         if opname in ("setattr", "delattr"):
             assume(inplace and if_)
         if opname == "transform":
@@ -82,6 +83,45 @@ def make_k5(fam, opname):
     return h
 
 
+def make_nested_kw(fam):
+    """with_<a>(**kw) / update_<a>(**kw) on an unset nested attribute == <Nested>(**kw), whatever the keyword order
+    (the nested class has an attribute invalidated_by another one, so re-assigning constructor keywords is visible)."""
+    from spec_classes import Attr, spec_class
+
+    bootstrap = fam == "eager"
+
+    @spec_class(bootstrap=bootstrap)
+    class Dep:
+        base: int = 0
+        derived: int = Attr(default=-1, invalidated_by=["base"])
+
+    @spec_class(bootstrap=bootstrap)
+    class Holder:
+        dep: Dep
+        y: int = 0
+
+    def h(b: int, d: int, order: bool, form: int, inplace: bool) -> str:
+        kw = {"derived": d, "base": b} if order else {"base": b, "derived": d}
+        want = Dep(**kw)
+        o = Holder()
+        k2 = {"_inplace": True} if inplace else {}
+        name = pick(["with_kw", "update_kw", "with_dict", "ctor_dict"], form)
+        if name == "with_kw":
+            r = o.with_dep(**kw, **k2)
+        elif name == "update_kw":
+            r = o.update_dep(**kw, **k2)
+        elif name == "with_dict":
+            r = o.with_dep(kw, **k2)
+        else:
+            r = Holder(dep=kw)
+        got = r.dep
+        check((got.base is want.base or got.base == want.base) and (got.derived is want.derived or got.derived == want.derived), "with_<a>(**kw) yields a freshly built nested spec from the keywords", f"C05/nested-kw/{name}/state", lambda: f"kw order {'derived,base' if order else 'base,derived'}: got base={got.base!r} derived={got.derived!r}; {Dep.__name__}(**kw) has base={want.base!r} derived={want.derived!r}")
+        return "ok"
+
+    h.__name__ = f"nested_kw_{fam}"
+    return h
+
+
 def obligations(tier):
     obs = []
     T = 200 if tier == "quick" else 900
@@ -100,6 +140,7 @@ def obligations(tier):
         for opname in K3_OPS:
             for attr in ("inner", "inner2"):
                 obs.append(Ob(f"C05.{fam}.K3.{opname}.{attr}", make_k3(fam, opname, attr), w3, f"K3.{attr} (nested spec value; inner has no default and may be unset, inner2 has a default factory); call form {opname}; symbolic nested values and flags", expect={"ok"}, timeout=T))
+        obs.append(Ob(f"C05.{fam}.nested-kw", make_nested_kw(fam), [(2, 5, o_, f, ip) for o_ in (False, True) for f in range(4) for ip in (False, True)], "nested class with an attribute invalidated_by another: with_dep(**kw) / update_dep(**kw) / with_dep(dict) / Holder(dep=dict) on an unset nested attribute equal Dep(**kw) for both keyword orders; symbolic values", expect={"ok"}, timeout=T))
         for opname in K5_OPS:
             obs.append(Ob(f"C05.{fam}.K5.{opname}", make_k5(fam, opname), w5, f"K5 prepared attribute; {opname}: the stored value is the PREPARED value", expect={"ok"}, timeout=T))
     return obs
